@@ -7,8 +7,8 @@ The clauses of the property are TLA+ definitions in spec/Meso.tla; spec/MesoOrac
    zero-thickness model - the pore volumes (successive changes), the distribution and the cumulative
    curve.  Thickness and Kelvin models are the specification's rational tables passed to the library as
    callables.  Every row is executed on psd_pygapsdh (slit / cylinder / sphere), psd_bjh and
-   psd_dollimore_heal and compared in float64 with those rationals; per row, two of the executed calls
-   are also judged clause by clause by TLC (DecFloat).
+   psd_dollimore_heal and compared in float64 with those rationals; per row, one or two of the executed
+   calls (rotating over the configurations) are also judged clause by clause by TLC (DecFloat).
 2. Observation tier: built-in thickness and Kelvin models, grids of 10..60 points, psd_mesoporous and
    the raw functions, limits on and off; TLC judges widths (against the Kelvin equation evaluated in the
    specification from ln p), monotonicity, conservation, density, cumulative and single-step clauses.
@@ -19,12 +19,11 @@ import itertools
 import math
 import random
 from fractions import Fraction
-from functools import partial
 
-from ..common import Run, exc_class, MachineryError, quiet_pygaps
+from ..common import Run, exc_class, quiet_pygaps
 from .. import tlc
 from ..encode import dec_enc
-from ..linmeso_common import NONE, AUTO, frac, renc, ranks, ExactModel, stored_adsorbate, point_isotherm
+from ..linmeso_common import NONE, AUTO, frac, renc, ExactModel, stored_adsorbate, point_isotherm
 
 PID = "C16"
 TOLK = 5              # in-spec DecFloat judgement 1e-5
@@ -58,10 +57,10 @@ def psd_record(V, t, rk, res, zero, step=0, kmode="table", lnp=None, ad=None, me
 
 
 def sig_of(cfg):
-    """Coarse configuration class of a violation signature."""
+    """Coarse configuration class of a violation signature (site and clause are added by the caller)."""
     if "method" not in cfg:
-        return dict(cfg)
-    out = {k: cfg[k] for k in ("method", "pore_geometry", "kelvin", "tier") if k in cfg}
+        return {k: v for k, v in cfg.items() if k != "adsorbate"}
+    out = {k: cfg[k] for k in ("method", "pore_geometry", "kelvin") if k in cfg}
     if "thickness" in cfg:
         out["thickness"] = "zero" if cfg["thickness"] in ("zero", "zero thickness") else "non-zero"
     return out
@@ -170,12 +169,13 @@ def exact_tier(run, judge, rng, rows, rk_model, tk_model, thorough):
     import numpy
     from pygaps.characterisation.psd_meso import psd_mesoporous
     v0 = Fraction(1, 10)
+    thorough_all = not thorough      # quick: both thickness models of a row are TLC-judged; thorough: one of the two, alternating
     queries = []
     for g, incs in rows:
         for model in ("zero", "table"):
             queries.append({"k": "exact", "g": list(g), "incs": list(incs), "v0": renc(v0), "model": model})
     answers = tlc.oracle("MesoOracle", queries, timeout=900, chunk=20000)
-    ads = stored_adsorbate("verif_ads_b", cross_sectional_area=Fraction(1, 5), molar_mass=Fraction(30), liquid_density=Fraction(4, 5), surface_tension=Fraction(9))
+    stored_adsorbate("verif_ads_b", cross_sectional_area=Fraction(1, 5), molar_mass=Fraction(30), liquid_density=Fraction(4, 5), surface_tension=Fraction(9))
     n_iso = 0
     for i, (q, a) in enumerate(zip(queries, answers)):
         ex = a["expect"]
@@ -208,7 +208,7 @@ def exact_tier(run, judge, rng, rows, rk_model, tk_model, thorough):
                 cmp_seq(run, site, cfg, "density", res["pore_distribution"], [frac(x) for x in ex["dist"]], TOL_W, total, det)
                 if not abs(float(numpy.sum(res["pore_volumes"])) - total) <= TOL_EXACT * (2 * total):
                     run.violation(dict(sig_of(cfg), site=site, clause="zero_exact", wrong="volumes do not sum to the total change"), det)
-            if ci == pick and finite(res["pore_widths"], res["pore_volumes"], res["pore_distribution"]):
+            if ci == pick and (thorough_all or (i // 2 + i) % 2 == 0) and finite(res["pore_widths"], res["pore_volumes"], res["pore_distribution"]):
                 judge.add(psd_record(V, t, rk, res, model == "zero"), site, cfg, det)
         # psd_mesoporous on a sample of rows (isotherm in liquid volume, no unit conversion involved)
         if i % (8 if thorough else 3) == 0:
@@ -317,9 +317,8 @@ def observation_tier(run, judge, rng, thorough, seed):
             for men in ("",) + tuple(MENISCI):
                 scen.append((name, T, ad, gi, tname, method, geom, branch, men))
     rng.shuffle(scen)
-    scen = scen if thorough else scen[: len(scen) // 12]
+    scen = scen[: len(scen) // 2] if thorough else scen[: len(scen) // 12]
     n_not_judged = 0
-    isos = {}
     for name, T, ad, gi, tname, method, geom, branch, men in scen:
         p = grids[gi]
         tfun = get_thickness_model(tname)
@@ -445,3 +444,20 @@ def limits_tier(run, rng, thorough, rk_model, tk_model):
                 run.violation(dict(sig_of(cfg), site="psd_mesoporous", clause="cumulative", wrong="does not end at the volume adsorbed at the highest pressure used"),
                               {"record": r, "cumulative": cum.tolist(), "V": V.tolist()})
     run.add("traces_validated_against_impl", len(recs))
+
+
+def replay(path):
+    """./check C16 --replay replays/C16-....json : let the specification judge the recorded call again
+    (the record holds every input and output of the call) and print the failing clauses."""
+    import json
+    with open(path) as f:
+        d = json.load(f)
+    print("signature:", json.dumps(d["sig"], sort_keys=True))
+    rec = (d.get("detail") or {}).get("record")
+    if not rec or rec.get("k") not in ("psd", "kelvin", "meniscus"):
+        print(json.dumps(d.get("detail"), indent=1)[:4000])
+        print("(recorded case printed; run ./check C16 to re-evaluate it on the current tree)")
+        return 0
+    a = tlc.oracle("MesoOracle", [rec])[0]
+    print("failing clauses of spec/Meso.tla on the recorded call:", sorted(a["bad"]) or "none")
+    return 0 if a["ok"] else 1
